@@ -568,3 +568,55 @@ func TestVerifC12Messages(t *testing.T) {
 }
 
 func TestVerifReplay(t *testing.T) { vstat.RunReplays(t) }
+
+func FuzzC12Decoders(f *testing.F) {
+	for _, k := range []string{"pollreq", "pollresp", "ansreq", "ansresp", "clientreq", "clientresp"} {
+		f.Add(k[:5], genSeed(k))
+	}
+	f.Fuzz(func(t *testing.T, kind string, data []byte) {
+		kinds := []string{"pollreq", "pollresp", "ansreq", "ansresp", "clientreq", "clientresp"}
+		k := kinds[(len(kind)+int(sum(kind)))%len(kinds)]
+		c := mcase{Kind: k, Mode: "raw", Raw: data}
+		if err := vstat.Safely(func() error { return runRaw(c) }); err != nil {
+			t.Fatalf("%s", uMsg.Fail(c, "%v", err))
+		}
+	})
+}
+
+func sum(s string) (n byte) {
+	for i := 0; i < len(s); i++ {
+		n += s[i]
+	}
+	return
+}
+
+func genSeed(k string) []byte {
+	switch k {
+	case "pollreq":
+		b, _ := messages.EncodeProxyPollRequestWithRelayPrefix("sid", "standalone", "restricted", 8, "x$")
+		return b
+	case "pollresp":
+		b, _ := messages.EncodePollResponseWithRelayURL("offer", true, "unknown", "wss://x/", "")
+		return b
+	case "ansreq":
+		b, _ := messages.EncodeAnswerRequest("answer", "sid")
+		return b
+	case "ansresp":
+		b, _ := messages.EncodeAnswerResponse(true)
+		return b
+	case "clientreq":
+		b, _ := (&messages.ClientPollRequest{Offer: "offer", NAT: "unknown"}).EncodeClientPollRequest()
+		return b
+	}
+	b, _ := (&messages.ClientPollResponse{Answer: "answer"}).EncodePollResponse()
+	return b
+}
+
+func FuzzC12Rapid(f *testing.F) {
+	f.Fuzz(rapid.MakeFuzz(func(rt *rapid.T) {
+		c := genCase(rt)
+		if err := vstat.Safely(func() error { return runMsg(nil, c) }); err != nil {
+			rt.Fatalf("%s", uMsg.Fail(c, "%v", err))
+		}
+	}))
+}
